@@ -394,6 +394,7 @@ SPEC_FACTS = [
     ("var i = 0, out = []; do { i++; out.push(i); if (i < 3) continue; } while (false); print(out.join());", ["1"]),
     ("var out = []; outer: do { for (var j = 0; j < 2; j++) { out.push(j); if (j === 1) continue outer; } } while (false); print(out.join());", ["0,1"]),
     ("var n = 0; do { try { n++; continue; } finally { n += 10; } } while (n < 5); print(n);", ["11"]),
+    ("var i = 0; function f() { return i++ < 1; } function* g() { yield 1; } print(eval('3; var y = f();'), eval('i = 0; do { 7; } while (f())'), eval('try { 8; } finally { f(); }'), eval('var it = g(); 5; var r = it.next();'), eval('4; let z = `${ {toString() { return 1; }} }`;'));", ["3 7 8 5 4"]),
     ("var i = 0; print(eval('do { i++; { 7; } if (i === 4) { 1; } } while (i < 1)'), eval('l: { { 7; } if (i === 4) { 1; } }'), eval('switch (0) { case 0: { 7; } try { } catch { } }'), eval('do { { 7; } with ({}) { } } while (false)'), eval('do { { 7; } for (var k in {}) { } } while (false)'), eval('do { { 7; } l: { } } while (false)'));", ["undefined undefined undefined undefined undefined 7"]),
     ("print(eval('1; do { 2; continue; } while (false)'), eval('3; do { } while (false)'), eval('4; for (var q = 0; q < 1; q++) { 5; continue; }'));", ["2 undefined 5"]),
     ("function f(){ let x = 1; return x + (x = 5); } print(f()); function g(){ let p = '5'; return typeof (p++); } print(g());", ["6", "number"]),
@@ -488,7 +489,7 @@ def run(ck):
     for _ in range(400 if quick else 12000):
         progs.append(G(r).program())
     reqs = ["run %d %s" % (len(p), " ".join(t for s in p for t in toks_s(s))) for p in progs]
-    model = ck.driver("drv-c01", reqs)
+    model = ck.driver_parallel("drv-c01", reqs)
     src = []
     for i, p in enumerate(progs):
         src.append("//// m%d budget=3000000" % i)
@@ -570,7 +571,7 @@ def run(ck):
                            "oracle": "hand-derived from ECMA-262 (regression test, outside the Lean fragment)"})
     # ---- (iv) operators and coercions: second Lean model vs engine
     cases = [co_case(r) for _ in range(1500 if quick else 60000)]
-    manswers = ck.driver("drv-c01", [c[0] for c in cases])
+    manswers = ck.driver_parallel("drv-c01", [c[0] for c in cases])
     csrc = []
     CH = 300
     for ci in range(0, len(cases), CH):
